@@ -135,6 +135,18 @@ theorem cts_cbc_roundtrip (v : CsVariant) (C : Cipher) (hC : C.Valid) (w₁ w₂
     C05aux.implCbcDec v C w₂ iv (C05aux.implCbcEnc v C w₁ iv m) = m :=
   C05.cbc_cs_dec_inverts v C hC w₁ w₂ iv m hiv hm
 
+/-- ECB-CS1/2/3 one-shot calls. -/
+theorem cts_ecb_roundtrip (v : CsVariant) (C : Cipher) (hC : C.Valid) (w₁ w₂ : Nat) (m : Bytes)
+    (hm : C.bs ≤ m.length) :
+    C05aux.implEcbDec v C w₂ (C05aux.implEcbEnc v C w₁ m) = m :=
+  C05.ecb_cs_dec_inverts v C hC w₁ w₂ m hm
+
+/-- ciphertext stealing is length-preserving (all six types). -/
+theorem cts_length (v : CsVariant) (C : Cipher) (hC : C.Valid) (w : Nat) (iv m : Bytes)
+    (hiv : iv.length = C.bs) (hm : C.bs ≤ m.length) :
+    (C05aux.implCbcEnc v C w iv m).length = m.length ∧ (C05aux.implEcbEnc v C w m).length = m.length :=
+  ⟨C05.cbc_cs_length v C hC w iv m hiv hm, C05.ecb_cs_length v C hC w m hm⟩
+
 /-! ### non-vacuity -/
 example : (Toy.cipher [1,2,3,4,5,6,7,8,9,10,11,12,13,14,15,16] 2).Valid ∧
     AllLen 2 (fed [.one [1, 2], .many [[3, 4], [5, 6]]]) := by
